@@ -522,9 +522,9 @@ pub fn fixed() -> Vec<Tpl> {
             "fn id(x: T) -> T { x }\nfn boom() -> int {\n    id(panic(\"a\"))\n}\nprintln(\"before\")\nprintln(1 + boom())\n",
             Expect::Err("panic", "before\n".to_string()),
         ),
-        // ---- checker/compiler panics repaired earlier (D79..D85): accepted => compiles, or a diagnostic
-        tpl("D83 match-on-diverging-scrutinee", "regression", &["C03"], "fn f() -> int {\n    match { return 5 } { _ -> 1 }\n}\nprintln(f())\n", out("5\n")),
-        tpl("D82 duplicate-parameter-names", "regression", &["C03"], "fn f(a, a, b = 3) { a + b }\nprintln(f(1))\n", Expect::Reject(vec![])),
+        // ---- checker/compiler panics repaired earlier (D76, D77, D80, D83, D84): accepted => compiles, or a diagnostic
+        tpl("D77 match-on-diverging-scrutinee", "regression", &["C03"], "fn f() -> int {\n    match { return 5 } { _ -> 1 }\n}\nprintln(f())\n", out("5\n")),
+        tpl("D76 duplicate-parameter-names", "regression", &["C03"], "fn f(a, a, b = 3) { a + b }\nprintln(f(1))\n", Expect::Reject(vec![])),
         tpl(
             "D84 for-loop-in-default-value",
             "regression",
@@ -533,14 +533,14 @@ pub fn fixed() -> Vec<Tpl> {
             out("2\n5\n"),
         ),
         tpl(
-            "D81 default-value-declaring-variables",
+            "D80 default-value-declaring-variables",
             "regression",
             &["C03", "C19"],
             "fn f(a: int, b: int = { let t = 3\n t + 1 }) -> int { a + b }\nprintln(f(1))\nlet g = (k: int) -> f(k) + f(k, 1)\nprintln(g(10))\n",
             out("5\n25\n"),
         ),
         tpl(
-            "D80 variant-field-defaults",
+            "D83 variant-field-defaults",
             "regression",
             &["C03"],
             "fn tick(n: int) -> int { n + 1 }\ntype Col = | Rgb(r: int, g: int = tick(5)) | Gray\nmatch Col.Rgb(1) {\n    .Rgb(r, g) -> println(r + g)\n    .Gray -> println(0)\n}\n",
@@ -548,7 +548,7 @@ pub fn fixed() -> Vec<Tpl> {
         ),
         // ---- or-patterns in let / for bind through the alternative that matches (ae0a5b4; formerly a VM type fault)
         tpl(
-            "or-pattern-binding-in-let-and-for",
+            "D103 or-pattern-binding-in-let-and-for",
             "regression",
             &["C01"],
             "type Ee = Aa(int, int) | Bb(int)\nlet (Ee.Aa(_, _) | _) = Ee.Bb(0)\nprintln(\"ok\")\nlet (Ee.Aa(x, _) | Ee.Bb(x)) = Ee.Bb(7)\nprintln(x)\nfor (Ee.Aa(y, _) | Ee.Bb(y)) in [Ee.Aa(1, 2), Ee.Bb(3)] {\n    println(y)\n}\n",
@@ -556,11 +556,11 @@ pub fn fixed() -> Vec<Tpl> {
         ),
         // ---- D102: a default value on a lambda parameter (no call can use it) is reported where it is written
         tpl("D102 lambda-parameter-default", "regression", &["C19"], "let f = (a: int, b: int = match 2 { 2 -> 5\n _ -> 6 }) -> a + b\nprintln(f(1, 2))\n", Expect::Reject(vec![])),
-        tpl("D80 variant-field-default-ill-typed", "regression", &["C03"], "type Col = | Rgb(r: int, g: int = \"s\") | Gray\nprintln(1)\n", Expect::Reject(vec![])),
+        tpl("D83 variant-field-default-ill-typed", "regression", &["C03"], "type Col = | Rgb(r: int, g: int = \"s\") | Gray\nprintln(1)\n", Expect::Reject(vec![])),
     ];
     // ---- namespace-qualified functions and constructors as values (A_08, fix 8526476 / f10cb88)
     let mut t = tpl(
-        "D79 namespace-qualified-values",
+        "D82 namespace-qualified-values",
         "fn-value",
         &["C03", "C19"],
         "use helper_ns as ns\nlet f = ns.twice\nprintln(f(21))\nlet fs = [ns.twice, ns.twice]\nprintln(fs[1](4))\nlet g = ns.greet\nprintln(g())\nlet mkpt = ns.Pt\nlet p = mkpt(1, 2)\nprintln(p.y)\nlet h = (a: int) -> f(a) + mkpt(a, 3).y + ns.sub(a)\nprintln(h(10))\nlet q = ns.Pt(5, 6)\nprintln(q.x)\nlet s = ns.sub\nprintln(s(3, 1))\nmatch ns.Shade.Light(4) {\n    .Light(n) -> println(n)\n    .Dark -> println(\"dark\")\n}\n",
